@@ -649,6 +649,17 @@ def visited(ctx: Ctx, rep: Report) -> None:
                     isinstance(k, ast.Compare) and any(
                         isinstance(o, (ast.In, ast.NotIn)) for o in k.ops)
                     for k in ast.walk(w)
+                ) or any(
+                    # guard-clause form: a test on what is being queued
+                    # (`if neighbor == parent: continue`)
+                    isinstance(k, (ast.If, ast.IfExp)) and (
+                        {x.id for x in ast.walk(k.test)
+                         if isinstance(x, ast.Name)}
+                        & {x.id for g0 in grows for a in g0.args
+                           for x in ast.walk(a) if isinstance(x, ast.Name)}
+                        - {L}
+                    )
+                    for k in ast.walk(w)
                 )
                 setdiff = any(
                     isinstance(k, ast.BinOp) and isinstance(k.op, ast.Sub)
